@@ -362,6 +362,13 @@ def hotspotEquiv (o n : Rec) : Bool :=
   && gi o 6 = gi n 6 && gi o 9 = gi n 9 && mapDeepEq (gm o 11) (gm n 11)
   && (if gi o 3 = 0 then gi o 8 = gi n 8 else if gi o 3 = 1 then gi o 7 = gi n 7 else false)
 
+def flowReusable (o n : Rec) : Bool :=
+  gs o 1 = gs n 1 && gi o 5 = gi n 5 && gs o 6 = gs n 6 && gi o 10 = gi n 10
+  && (gi o 2 = 1 || gi o 3 = 0) && (gi n 2 = 1 || gi n 3 = 0)
+
+def hotspotReusable (o n : Rec) : Bool :=
+  gs o 1 = gs n 1 && gi o 3 = gi n 3 && gi o 10 = gi n 10 && gi o 9 = gi n 9 && gi o 2 = gi n 2
+
 structure ModDef where
   name : String
   tags : List Tag
@@ -370,11 +377,11 @@ structure ModDef where
   unknown : Rec → Bool := fun _ => false
 
 def modDefs : List ModDef := [
-  { name := "flow", tags := flowTags, mo := { valid := flowValid, norm := flowNorm, equiv := flowEquiv }, unknown := flowUnknown },
+  { name := "flow", tags := flowTags, mo := { valid := flowValid, norm := flowNorm, equiv := flowEquiv, reusable := flowReusable }, unknown := flowUnknown },
   { name := "system", tags := systemTags, mo := { valid := systemValid } },
   { name := "cb", tags := cbTags, mo := { valid := cbValid } },
   { name := "isolation", tags := isolationTags, mo := { valid := isolationValid } },
-  { name := "hotspot", tags := hotspotTags, mo := { valid := hotspotValid, equiv := hotspotEquiv }, hotspot := true }]
+  { name := "hotspot", tags := hotspotTags, mo := { valid := hotspotValid, equiv := hotspotEquiv, reusable := hotspotReusable }, hotspot := true }]
 
 def findMod (n : String) : Option ModDef := modDefs.find? (·.name = n)
 
@@ -479,16 +486,25 @@ def structEq (a b : Option (WireList Rec)) : Bool :=
       | _, _ => false
   | _, _ => false
 
+/-- `lastUpdateProperty` holds the very rule objects the manager normalised in place when it built their controllers
+    (`NewWarmUpTrafficShapingCalculator` writes the default cold factor into the rule) -/
+def aliased (md : ModDef) : Option (WireList Rec) → Option (WireList Rec)
+  | some (some xs) => some (some (xs.map fun o => o.map fun r => if md.mo.valid r then md.mo.norm r else r))
+  | v => v
+
+/-- the `eqv` parameter of the model: Go's DeepEqual against the (aliased) remembered value -/
+def goEqv (md : ModDef) (v last : Option (WireList Rec)) : Bool := structEq v (aliased md last)
+
 /-- one delivery; returns the new module state and the return value of `Handle` (`none` = outside) -/
 def deliverMod (md : ModDef) (ms : ModSt) (bytes : List Nat) : ModSt × Option (Ret × Ret) :=
   if ms.lost then (ms, none) else
   match convOf md bytes, convIdeal md bytes with
   | some c, some ci =>
     -- the model proper
-    let (hm', o) := deliver (fun (_ : Unit) => c) structEq md.mo ms.hm ()
+    let (hm', o) := deliver (fun (_ : Unit) => c) (goEqv md) md.mo ms.hm ()
     let ret := match o with | .ret r => r | .panicked => Ret.nil
     -- the property as stated
-    let hmI' := (deliver (fun (_ : Unit) => ci) structEq md.mo ms.hmI ()).1
+    let hmI' := (deliver (fun (_ : Unit) => ci) (goEqv md) md.mo ms.hmI ()).1
     let (ideal', cause') := match ci with
       | .ok v =>
         let vs := validElems md.mo.valid v
@@ -498,7 +514,9 @@ def deliverMod (md : ModDef) (ms : ModSt) (bytes : List Nat) : ModSt × Option (
           if isPanic then "null-element-swallowed" else if hasKey then "hotspot-paramkey-dropped" else ms.cause)
       | _ =>
         let asisOk := match c with | .ok _ => true | _ => false
-        (ms.ideal, if md.hotspot && asisOk then "hotspot-paramkey-dropped" else ms.cause)   -- a wrongly typed `paramKey` is not even looked at
+        let asisPanic := match c with | .panic => true | _ => false
+        -- a wrongly typed `paramKey` is not even looked at; a recovered converter panic returns nil
+        (ms.ideal, if asisPanic then "null-element-swallowed" else if md.hotspot && asisOk then "hotspot-paramkey-dropped" else ms.cause)
     let retIdeal := match ci with | .ok _ => Ret.nil | _ => Ret.err
     ({ ms with hm := hm', ideal := ideal', hmI := hmI', cause := cause' }, some (ret, retIdeal))
   | _, _ => ({ ms with lost := true }, none)
@@ -556,7 +574,7 @@ def step (spec : Bool) (s : St) (ts : List String) (_line : String) : St × Opti
        match content with
        | none => (s, some "bad-op")
        | some content =>
-         let (src, ok) := FileSrc.init (fileConv md) structEq md.mo content
+         let (src, ok) := FileSrc.init (fileConv md) (goEqv md) md.mo content
          let (ms', r) := match content with
            | some bytes => deliverMod md (getMod s m) bytes
            | none => (getMod s m, some (Ret.nil, Ret.nil))
@@ -567,7 +585,7 @@ def step (spec : Bool) (s : St) (ts : List String) (_line : String) : St × Opti
   | ["file.write", p] =>
     (match s.file, payloadBytes p with
      | some f, some bytes =>
-       let stp := FileSrc.step (fileConv f.md) structEq f.md.mo []
+       let stp := FileSrc.step (fileConv f.md) (goEqv f.md) f.md.mo []
        let src' := stp (stp f.src (.write bytes)) .proc
        let active := !f.src.closed && f.src.content.isSome
        let ms := getMod s f.md.name
@@ -579,7 +597,7 @@ def step (spec : Bool) (s : St) (ts : List String) (_line : String) : St × Opti
   | ["file.remove"] =>
     (match s.file with
      | some f =>
-       let src' := FileSrc.step (fileConv f.md) structEq f.md.mo [] f.src .remove
+       let src' := FileSrc.step (fileConv f.md) (goEqv f.md) f.md.mo [] f.src .remove
        let ms := getMod s f.md.name
        let (ms', _) := if !f.src.closed then deliverMod f.md ms [] else (ms, none)
        let ms' := { ms' with hm := src'.hm }
